@@ -115,6 +115,8 @@ func buildX(x XVal) any {
 		return map[string]string{"k": x.S}
 	case "map":
 		return buildXMap(x.M)
+	case "nmap": // a named map type: concatenated like a map, and the result keeps its type
+		return xNamedMap(buildXMap(x.M))
 	case "slice":
 		out := make([]any, 0, len(x.L))
 		for _, e := range x.L {
@@ -127,6 +129,7 @@ func buildX(x XVal) any {
 
 type xNamedStr string
 type xNamedInt int
+type xNamedMap map[string]any
 
 func buildXMap(m map[string]XVal) map[string]any {
 	if m == nil {
@@ -183,7 +186,13 @@ func genX(t *rapid.T, depth int) XVal {
 	}
 	if rapid.IntRange(0, 9).Draw(t, "xSameKind") == 0 {
 		// values whose type shares its reflect.Kind with one of the ordinary types
-		kind := []string{"ns", "ni", "ls", "ms"}[rapid.IntRange(0, 3).Draw(t, "xSameKindK")]
+		kind := []string{"ns", "ni", "ls", "ms", "nmap"}[rapid.IntRange(0, 4).Draw(t, "xSameKindK")]
+		if kind == "nmap" {
+			if depth >= 2 {
+				return XVal{K: "nmap", M: map[string]XVal{"a": {K: "s", S: "x"}}}
+			}
+			return XVal{K: "nmap", M: genXMap(t, depth+1)}
+		}
 		return XVal{K: kind, S: rapid.StringMatching("[a-c]{0,2}").Draw(t, "xss"), I: rapid.IntRange(0, 3).Draw(t, "xsi")}
 	}
 	switch k {
@@ -615,6 +624,17 @@ func checkC14(c CaseC14) (*vkit.Failure, vkit.Meta) {
 			return out
 		}
 		f = lawCheck(n, c.Split, build, internal.ConcatItems[map[string]any], "internal.ConcatItems[map[string]any]")
+		if f == nil {
+			// the same chunks as values of a named map type
+			f = lawCheck(n, c.Split, func() []xNamedMap {
+				ms := build()
+				out := make([]xNamedMap, len(ms))
+				for i, mm := range ms {
+					out[i] = xNamedMap(mm)
+				}
+				return out
+			}, internal.ConcatItems[xNamedMap], "internal.ConcatItems[named map type]")
+		}
 		nested := false
 		for _, mm := range c.Maps {
 			for _, x := range mm {
